@@ -483,20 +483,9 @@ class List(list, base.Symbolic, pg_typing.CustomTyping):
         item.sym_setpath(utils.KeyPath(idx, self.sym_path))
 
   def _parse_slice(self, index: slice) -> Tuple[int, int, int]:
-    start = index.start if index.start is not None else 0
-    start = max(-len(self), start)
-    start = min(len(self), start)
-    if start < 0:
-      start += len(self)
-
-    stop = index.stop if index.stop is not None else len(self)
-    stop = max(-len(self), stop)
-    stop = min(len(self), stop)
-    if stop < 0:
-      stop += len(self)
-
-    step = index.step if index.step is not None else 1
-    return start, stop, step
+    # Same normalization as for the standard list: the defaults of a missing
+    # start/stop depend on the sign of the step.
+    return index.indices(len(self))
 
   def _init_kwargs(self) -> typing.Dict[str, Any]:
     kwargs = super()._init_kwargs()
@@ -547,11 +536,18 @@ class List(list, base.Symbolic, pg_typing.CustomTyping):
     if isinstance(index, slice):
       start, stop, step = self._parse_slice(index)
       replacements = [self._formalized_value(i, v) for i, v in enumerate(value)]
+      extended = step != 1
       if step < 0:
+        # Assign in ascending order of the positions.
+        positions = range(start, stop, step)
         replacements.reverse()
+        if positions:
+          start, stop = positions[-1], positions[0] + 1
+        else:
+          stop = start
         step = -step
-      slice_size = math.ceil((stop - start) * 1.0 / step)
-      if step == 1:
+      slice_size = max(0, math.ceil((stop - start) * 1.0 / step))
+      if not extended:
         if slice_size < len(replacements):
           for i in range(slice_size, len(replacements)):
             replacements[i] = Insertion(replacements[i])
